@@ -162,12 +162,14 @@ def eval_case(ctx, case):
             b = drive.SphinxBuild({"index.md": text}, conf={"myst_enable_extensions": EXT, "myst_heading_anchors": case["anchors"], "keep_warnings": True}, builder="dummy")
             try:
                 b.build()
-                recs = [r for r in b.records if r["type"] == "myst" and r["subtype"] == "xref_missing"]
+                # the warning STREAM (what the user sees, after Sphinx' handler-level filters), not the raw log records
+                recs = [r for r in b.stream_records() if r["type"] == "myst" and r["subtype"] == "xref_missing"]
+                ctx.count("sphinx_stream_vs_records_equal" if len(recs) == len([r for r in b.records if r["type"] == "myst" and r["subtype"] == "xref_missing"]) else "sphinx_stream_vs_records_differ")
                 doc = b.resolved("index")
                 lines = []
                 for r in recs:
                     m = re.search(r":(\d+)$", str(r["location"] or ""))
-                    lines.append(f"index.md:{m.group(1) if m else ''}: (WARNING/2) {r['msg']} [myst.xref_missing]")
+                    lines.append(f"index.md:{m.group(1) if m else ''}: (WARNING/2) {r['msg'].replace(' [myst.xref_missing]', '')} [myst.xref_missing]")
                 wtext = "\n".join(lines)
             finally:
                 b.close()
@@ -358,7 +360,7 @@ def make_case(R):
             f0 = R.choice(frs)
             frag = f0.upper() if f0.upper() != f0 else f0 + "x"
         else:
-            frag = R.choice(["nowhere", "missing-1", "no such", "tgt99"])
+            frag = R.choice(["nowhere", "nowhere", "missing-1", "no such", "tgt99"])  # repeated on purpose: every link to the same missing name warns
         it = {"k": "link", "frag": frag, "spelling": R.choice(["text", "empty", "empty", "project", "project_text"]), "pos": R.choice(["top", "top", "quote", "list", "note", "tip-colon", "table", "footnote", "heading"])}
         items.insert(R.randint(0, len(items)), it)
     for _ in range(R.randint(0, 2)):
